@@ -150,6 +150,19 @@ def _idx_key(v, text=None):
     return "text:" + " ".join((text or "?").split())
 
 
+def _alias_text(func, text):
+    """text of an index expression with a once-assigned local alias replaced by its definition"""
+    import ast as _a
+
+    t = " ".join((text or "").split())
+    if not t.isidentifier():
+        return t
+    defs = [n for n in _a.walk(func.node) if isinstance(n, _a.Assign) and len(n.targets) == 1 and isinstance(n.targets[0], _a.Name) and n.targets[0].id == t]
+    if len(defs) == 1:
+        return " ".join(unparse(defs[0].value).split())
+    return t
+
+
 def _transfers(run, dst_role, src_role, want_op=None):
     out = []
     for e in run.events:
@@ -162,10 +175,10 @@ def _transfers(run, dst_role, src_role, want_op=None):
         ex = v.extra
         if isinstance(ex, tuple) and ex and ex[0] == "sub" and ex[1].obj is not None and ex[1].obj[0] == src_role:
             src_name = ex[1].obj[1]
-            src_idx = _idx_key(ex[3], unparse(ex[2]))
+            src_idx = _idx_key(ex[3], _alias_text(e.func, unparse(ex[2])))
         elif v.obj is not None and isinstance(v.obj, tuple) and v.obj[0] == src_role:
             src_name = v.obj[1]
-        dst_idx = _idx_key(e.sub_vals[0], e.subs[0]) if len(e.sub_vals) == 1 else ("()" if not e.sub_vals else "(" + ",".join(_idx_key(x, t) for x, t in zip(e.sub_vals, e.subs)) + ")")
+        dst_idx = _idx_key(e.sub_vals[0], _alias_text(e.func, e.subs[0])) if len(e.sub_vals) == 1 else ("()" if not e.sub_vals else "(" + ",".join(_idx_key(x, _alias_text(e.func, t)) for x, t in zip(e.sub_vals, e.subs)) + ")")
         guards = tuple(sorted(p[0] for p in e.preds))
         out.append((norm_name(e.cell[1]), dst_idx.replace("(obj:", "obj:").rstrip(")") if False else dst_idx, norm_name(src_name) if src_name else None, src_idx, e.op, e, guards))
     return out
